@@ -89,7 +89,7 @@ PROPS = {
     },
     "C10": {
         "extra": [("mix", 3, 12)], "profile": "rtc", "n_quick": 5, "n_thorough": 40, "nops": 16, "nlists": 3, "cfgs": SIX,
-        "corpus": ["explicit_completion"],
+        "corpus": ["explicit_completion", "completion_ortho_defer"],
         "monitor": None,
         "relevant": M.relevant_by(M.proj(M.ALL, keep_res=True, keep_snap=True, keep_ev=True)),
         "monitor": M.mon_C04,
